@@ -153,4 +153,66 @@ def plansByRollappKey (rollapp : Bytes) : Bytes := [2] ++ [sep] ++ rollapp
 /-- how the keeper keys a plan: `PlanKey(fmt.Sprintf("%d", plan.Id))` -/
 def planKeyById (id : Nat) : Bytes := planKey (decStr id)
 
+/-! ### lockup reference keys (x/lockup/keeper/utils.go, iterator.go) -/
+
+/-- `combineKeys(keys...)` = `bytes.Join(keys, KeyIndexSeparator)`, `KeyIndexSeparator = {0xFF}` -/
+def combineKeys : List Bytes → Bytes
+  | [] => []
+  | [k] => k
+  | k :: ks => k ++ [0xFF] ++ combineKeys ks
+
+/-- `getTimeKey(t)`: 0x05, the big-endian length of the formatted time, the formatted time -/
+def lkTimeKey (t : TimeF) : Bytes := [5] ++ be64 (fmtTime t).length ++ fmtTime t
+
+/-- `getDurationKey(d)`: negative durations are clamped to 0; 0x06 0xFF be64(d) -/
+def lkDurationKey (d : Int) : Bytes := combineKeys [[6], be64 (if d < 0 then 0 else d.toNat)]
+
+/-- the fields of a `PeriodLock` that enter its reference keys (owner as address bytes) -/
+structure LockK where
+  owner : Bytes
+  duration : Int
+  endTime : TimeF
+  denoms : List Bytes
+
+/-- `durationLockRefKeys(lock)` -/
+def durationLockRefKeys (l : LockK) : List Bytes :=
+  let dk := lkDurationKey l.duration
+  [combineKeys [[7], dk], combineKeys [[8], l.owner, dk]] ++
+  l.denoms.flatMap (fun dn => [combineKeys [[9], dn, dk], combineKeys [[10], l.owner, dn, dk]])
+
+/-- `lockRefKeys(lock)` -/
+def lockRefKeys (l : LockK) : List Bytes :=
+  let tk := lkTimeKey l.endTime
+  durationLockRefKeys l ++ [combineKeys [[11], tk], combineKeys [[12], l.owner, tk]] ++
+  l.denoms.flatMap (fun dn => [combineKeys [[13], dn, tk], combineKeys [[14], l.owner, dn, tk]])
+
+/-- `unlockingPrefix(isUnlocking)` -/
+def unlockingPrefix (u : Bool) : Bytes := if u then [4] else [3]
+
+/-- the store key under which `addLockRefByKey(combineKeys(unlockingPrefix, refKey), id)` files lock `id` -/
+def lockRefStoreKey (u : Bool) (refKey : Bytes) (id : Nat) : Bytes :=
+  combineKeys [combineKeys [unlockingPrefix u, refKey], be64 id]
+
+/-- `KVStorePrefixIterator(store, p)` = `Iterator(p, PrefixEndBytes(p))` -/
+def iterPrefix (p : Bytes) : Bytes × Option Bytes := (p, prefixEnd p)
+/-- `iteratorAfterTime(prefix, T)`; a nil start (never produced here) is the least key -/
+def iterAfterTime (pfx : Bytes) (T : TimeF) : Bytes × Option Bytes :=
+  ((prefixEnd (combineKeys [pfx, lkTimeKey T])).getD [], prefixEnd pfx)
+/-- `iteratorBeforeTime(prefix, T)` -/
+def iterBeforeTime (pfx : Bytes) (T : TimeF) : Bytes × Option Bytes :=
+  (pfx, prefixEnd (combineKeys [pfx, lkTimeKey T]))
+/-- `iteratorDuration(prefix, d)` -/
+def iterDuration (pfx : Bytes) (d : Int) : Bytes × Option Bytes :=
+  iterPrefix (combineKeys [pfx, lkDurationKey d])
+/-- `iteratorLongerDuration(prefix, d)` -/
+def iterLongerDuration (pfx : Bytes) (d : Int) : Bytes × Option Bytes :=
+  (combineKeys [pfx, lkDurationKey d], prefixEnd pfx)
+/-- `iteratorShorterDuration(prefix, d)` -/
+def iterShorterDuration (pfx : Bytes) (d : Int) : Bytes × Option Bytes :=
+  (pfx, some (combineKeys [pfx, lkDurationKey d]))
+
+/-- the iterator prefixes of iterator.go: `combineKeys(unlockingPrefix, family[, addr][, denom])` -/
+def lkFamilyPrefix (u : Bool) (fam : Nat) (comps : List Bytes) : Bytes :=
+  combineKeys ([unlockingPrefix u, [fam]] ++ comps)
+
 end DymVerif.Keys
